@@ -234,13 +234,25 @@ pub fn gen_cfg(r: &mut Rng, t: &Target) -> DumpCfg {
 
 pub fn generate(prop: &str, seed: u64, tier: &str, out: &mut dyn std::io::Write) {
     let (nsmall, nbig, per) = if tier == "thorough" { (150, 30, 4) } else { (40, 4, 3) };
+    generate_counts(prop, seed, nsmall, nbig, per, "t", out);
+    // the register-fetch fallback: a dumper that may not use PTRACE_GETREGSET (an old kernel, a seccomp policy that only
+    // admits the classic requests) — in a worker process, since the filter cannot be removed again
+    if prop == "C04" || prop == "C05" || prop == "C01" {
+        let n = if tier == "thorough" { 12 } else { 3 };
+        for l in crate::live::run_worker(&["worker".to_string(), "seccomp".to_string(), prop.to_string(), seed.to_string(), n.to_string()]).0 {
+            writeln!(out, "{}", l).unwrap();
+        }
+    }
+}
+
+pub fn generate_counts(prop: &str, seed: u64, nsmall: u64, nbig: u64, per: usize, idp: &str, out: &mut dyn std::io::Write) {
     for i in 0..(nsmall + nbig) {
         let mut r = Rng::for_case(seed, 1, i);
         let sc = gen_scenario(&mut r, i >= nsmall);
         let t = match Target::spawn(&sc.args) {
             Ok(t) => t,
             Err(e) => {
-                writeln!(out, "{} t{}-{} kind=spawnfail why={}", prop, seed, i, e.replace(' ', "_")).unwrap();
+                writeln!(out, "{} {}{}-{} kind=spawnfail why={}", prop, idp, seed, i, e.replace(' ', "_")).unwrap();
                 continue;
             }
         };
@@ -278,7 +290,18 @@ pub fn generate(prop: &str, seed: u64, tier: &str, out: &mut dyn std::io::Write)
             }).collect();
             let dso_field = format!("{} rdso={}:{}.{}.{}:{}", dso_field, rd["dyn"].as_u64().unwrap(), rd["version"].as_u64().unwrap(),
                 rd["brk"].as_u64().unwrap(), rd["ldbase"].as_u64().unwrap(), rmaps.join(";"));
-            let o = dump_case(prop, &format!("t{}-{}-{}", seed, i, k), &t, &cfg, &mut dest, &format!("args={}{}", sc.args.join(","), dso_field));
+            // the cpu-information step may fail (no /proc/cpuinfo): platform, architecture and OS version are still to be right
+            let cpufail = Rng::for_case(seed, 192, i * 16 + k as u64).chance(1, 6);
+            let mut fail_client = None;
+            if cpufail {
+                let mut fc = minidump_writer::FailSpotName::testing_client();
+                fc.set_enabled(minidump_writer::FailSpotName::CpuInfoFileOpen, true);
+                fail_client = Some(fc);
+            }
+            let o = dump_case(prop, &format!("{}{}-{}-{}", idp, seed, i, k), &t, &cfg, &mut dest, &format!("args={}{}{}", sc.args.join(","), dso_field, if cpufail { " cpufail=1" } else { "" }));
+            if let Some(mut fc) = fail_client {
+                fc.set_enabled(minidump_writer::FailSpotName::CpuInfoFileOpen, false);
+            }
             writeln!(out, "{}{}", o.line, if tracer.is_some() { " traced=1" } else { "" }).unwrap();
             if let Some(mut c) = tracer {
                 let _ = c.kill();
